@@ -30,6 +30,7 @@ NBUILTIN = 3                             # table index 0 = object, 1 = typing.Ge
 REL_FILE = 1                             # file code that exists beside the module of "rel" classes
 REL_OFF = 100                            # code of the component-relative form of a file
 MISSING = 9                              # asset file code that does not exist (template_file / js_file / css_file)
+EMPTY_PATH = 0                           # file member set to the empty string (only generated together with the inlined member)
 PAIRS = ["template", "js", "css"]
 T_FLATTEN = "c16-per-level-flattening-order"
 T_RELPATH = "c16-media-before-resolve-relative-path"
@@ -57,7 +58,9 @@ def vstr(code):                       # inline attribute values; code 0 is the e
     return "" if code == 0 else "v%d" % code
 
 
-def apath(pair, code):                # path of an asset file (exists in COMPS root unless code == MISSING)
+def apath(pair, code):                # path of an asset file (exists in COMPS root unless code == MISSING); code 0 = ""
+    if code == EMPTY_PATH:
+        return ""
     return "%s%d.%s" % (pair[0], code, {"template": "html", "js": "js", "css": "css"}[pair])
 
 
@@ -216,6 +219,8 @@ def build(table, raws):
         attrs = {"__module__": "verif_c16_rel" if spec["rel"] else "verif_c16_plain"}
         if spec["media"] is not None:
             attrs["Media"] = media_class(spec, classes, raws[i])
+        for name in spec.get("none", ()):          # members explicitly set to None in the class body (= absent)
+            attrs[name] = None
         for pair, (inl, fil) in spec["pairs"].items():
             if inl is not None:
                 attrs[pair] = vstr(inl)
@@ -238,19 +243,26 @@ def run_history(table, hist, raws):
             return ("create_error", err[0], err[1])
         outs = []
         for (ci, attr, inst) in hist:
-            try:
+            try:                                      # the implementation
                 target = classes[ci]() if inst else classes[ci]
                 if attr == "media":
                     m = target.media
-                    d = {0: [fcode(x) for x in m._js]}
-                    for medium, lst in m._css.items():
-                        d[KEYS.index(medium)] = [fcode(x) for x in lst]
-                    outs.append(("media", {k: v for k, v in d.items() if v}))
+                    v = (list(m._js), {medium: list(lst) for medium, lst in m._css.items()})
                 else:
                     v = getattr(target, attr)
-                    outs.append(("attr", vcode(v)))
             except Exception as e:  # noqa
                 outs.append(("err", type(e).__name__))
+                continue
+            try:                                      # our reading of what it returned: never a crash, never an "err"
+                if attr == "media":
+                    d = {0: [fcode(x) for x in v[0]]}
+                    for medium, lst in v[1].items():
+                        d[KEYS.index(medium)] = [fcode(x) for x in lst]
+                    outs.append(("media", {k: l for k, l in d.items() if l}))
+                else:
+                    outs.append(("attr", vcode(v)))
+            except Exception:  # noqa
+                outs.append(("weird", repr(v)[:200]))
     return ("ok", outs)
 
 
@@ -431,6 +443,9 @@ def oracle(chk, table, raws, hist, outcome, seen):
             exp_lit, may_raise = expected_attr(ft, ci, attr, True)
             exp_comp, _ = expected_attr(ft, ci, attr, False)
         canon = json.dumps(o, sort_keys=True)
+        if o[0] == "weird":
+            chk.fail("c16-unexpected-value", "access %s on class %d returned a value the harness cannot read: %s" % (attr, ci, o[1]), rep)
+            continue
         if o[0] == "err":
             if may_raise and o[1] == "ValueError":
                 legit.append(pos)        # an asset file of a class that has to be resolved does not exist
@@ -553,8 +568,11 @@ def case_term(table, raws, hist, outcome, skip=()):
 # ---------------------------------------------------------------------------------------------
 # generators
 # ---------------------------------------------------------------------------------------------
-def mk(bases, media=None, comp=True, rel=False, pairs=None):
-    return {"bases": list(bases), "comp": comp, "rel": rel, "media": media, "pairs": pairs or {}}
+def mk(bases, media=None, comp=True, rel=False, pairs=None, none=None):
+    d = {"bases": list(bases), "comp": comp, "rel": rel, "media": media, "pairs": pairs or {}}
+    if none:
+        d["none"] = list(none)
+    return d
 
 
 def md(extend=True, js=None, **css):
@@ -574,6 +592,14 @@ def md_raw(js, css, extend=True):
 # witnesses of the defects (fixed and open) live in corpus/C16/*.json; a few more regression cases here
 CORPUS_LITERAL = [
     ("both-members", [mk([2], pairs={"js": (1, 1)})], []),
+    # seed C16c: the EMPTY string is a value - "" together with the file member is rejected like any other pair of values
+    ("both-members-empty-inline", [mk([2], pairs={"js": (0, 1)})], []),
+    ("both-members-empty-template", [mk([2], pairs={"template": (1, None)}), mk([3], pairs={"template": (0, 2)})], []),
+    ("both-members-empty-path", [mk([2], pairs={"css": (1, EMPTY_PATH)})], []),
+    ("both-members-both-empty", [mk([2], pairs={"template": (0, EMPTY_PATH)})], []),
+    # ... while "" alone, or with the other member explicitly None, is a perfectly good definition
+    ("empty-inline-alone", [mk([2], pairs={"js": (1, None), "css": (None, 1)}), mk([3], pairs={"js": (0, None), "css": (0, None)}, none=["js_file", "template"])],
+     [(4, "js", False), (4, "js_file", False), (4, "css", True), (4, "css_file", False), (4, "template", False), (3, "js", False)]),
     ("pair-nearest", [mk([2], pairs={"js": (1, None), "css": (None, 1)}), mk([3], pairs={"js": (None, 2), "css": (0, None)}), mk([4])],
      [(5, "js", False), (5, "js_file", False), (5, "css", True), (5, "css_file", False), (3, "css", False)]),
     # seed C16b (missed at first): diamond, the NON-defining branch listed first, two definers; an intermediate class is read
@@ -891,6 +917,30 @@ def gen_tables(chk, thorough):
         n = len(sh)
         yield pattern_table(rng, sh, [rng.randrange(1, 2 ** n) & rng.randrange(1, 2 ** n) | 1 << rng.randrange(n) for _ in PAIRS]), \
             "attr-orders%d" % n, "attr-perms-sampled"
+    # 4c. both members of a pair in one class: every pair x every kind of inlined value ("" / text) x every kind of file value
+    #     (existing / missing / "") x position (direct subclass, subclass of a definer, other pairs defined / explicit None) -
+    #     all rejected; and the legal neighbours ("" alone, file alone, explicit None beside a value) - all accepted
+    for pair in PAIRS:
+        others = [p for p in PAIRS if p != pair]
+        for inl in (0, 1, None):
+            for fil in (1, 2, MISSING, EMPTY_PATH, None):
+                if (inl, fil) == (None, None) or (inl is None and fil in (MISSING, EMPTY_PATH)):
+                    continue
+                for pos in range(4):
+                    d = {pair: (inl, fil)}
+                    none = []
+                    if inl is None:
+                        none.append(pair)
+                    if fil is None:
+                        none.append(pair + "_file")
+                    if pos == 1:
+                        d[others[0]] = (2, None)
+                    if pos == 3:
+                        none += [others[1], others[0] + "_file"]
+                    t = [mk([2], pairs={pair: (3, None)} if pos >= 2 else {}), mk([3], pairs=d, none=none if pos != 2 else [])]
+                    if pos == 3:
+                        t.append(mk([4]))
+                    yield t, "both-members", "readout"
     # 5. every written form of Media.js x Media.css (incl. all the empty ones) on one class, and on a base of a chain
     for jf in JS_FORMS:
         for cf in CSS_FORMS:
@@ -966,15 +1016,30 @@ def run(tier, seed):
     import djsetup
     djsetup.setup()
     import gen_constants
-    gen_constants.generate(["C16"])
+    import traceback
+    gen_error = None
+    try:
+        gen_constants.generate(["C16"])      # gen_c16 itself never raises on an unexpected source shape (sentinel + broken anchor)
+    except Exception:  # noqa
+        gen_error = traceback.format_exc()
     setup_files()
     chk = C.Check("C16", tier, seed)
+    if gen_error is not None:
+        chk.fail("c16-generator-crash", "harness/gen_c16.py could not read component_media.py:\n" + gen_error[-1500:], {"kind": "generator"})
     chk.prove()
     thorough = tier == "thorough"
     terms, cases = [], []
     stats = {"raised_missing_file": 0, "empty_css_forms": 0, "plain_definer_tables": 0, "dup_tables": 0}
 
     def one_table(table, kind, hs, coq_every=1):
+        # a crash of the harness on something the implementation did must never stand in for a verdict
+        try:
+            one_table_(table, kind, hs, coq_every)
+        except Exception:  # noqa
+            chk.fail("c16-harness-exception", "the harness raised while running / judging this table:\n" + traceback.format_exc()[-1500:],
+                     {"table": table, "histories": [list(h) for h in hs[:3]]})
+
+    def one_table_(table, kind, hs, coq_every=1):
         seen = {}
         ft = full_table(table)
         if any(not s["comp"] and s["pairs"] for s in table):
@@ -1011,7 +1076,9 @@ def run(tier, seed):
                 perms = list(itertools.permutations(idx)) if mode == "attr-perms" else sampled_perms(chk.rng, idx, 12)
                 one_table(table, kind, attr_order_histories(chk.rng, table, perms), coq_every=4)
                 continue
-            if mode == "all-orders":
+            if mode == "readout":
+                hs = [readout(table), [(c, a + "_file", True) for c in comp_idx(table) for a in PAIRS]] + histories(chk.rng, table, 1)[2:]
+            elif mode == "all-orders":
                 hs = order_histories(table)
             elif mode == "media-perms":
                 hs = histories(chk.rng, table, 1, exhaustive_media=n <= 3)
@@ -1044,7 +1111,8 @@ def run(tier, seed):
              "patterns of a pair x ALL 24 class orders of .template/.js/.css (and *_file) on classes and instances, the other 4-class shapes and random / stacked-diamond "
              "5-6 class shapes with random patterns (sampled orders incl. 'intermediate class first, then the most derived') - all through the direct oracles, every 4th also in Coq; every written form of Media.js x Media.css (11 x 16, incl. '' b'' [] () None {}) on one class "
              "+ random 2-3 class tables over those forms; seeded random tables of 2-6 classes (mixins with Media, no/empty Media, duplicate entries adjacent and distant, "
-             "extend lists, template/js/css and *_file pairs incl. both-members); 7 stacked-diamond shapes of 5-6 classes; Media files lying beside the component module; "
+             "extend lists, template/js/css and *_file pairs incl. both-members); the both-members clause systematically: every pair x inlined '' / text x file existing / missing / '' "
+             "x 4 positions (rejected) and the legal neighbours ('' alone, explicit None beside a value; accepted); 7 stacked-diamond shapes of 5-6 classes; Media files lying beside the component module; "
              "plain mixins defining template/js/css; classes with a missing asset file. Each history runs on fresh class objects. "
              "Non-trivial = some class receives files from >= 2 classes with a non-empty own Media. Distinct = distinct (table, history, written forms)."
              % ("all" if thorough else "30 sampled per shape", "3-4" if thorough else "1-2"),
